@@ -209,6 +209,30 @@ def rule_resume_all(ctx):
                 good = False
         ctx.check(good and exits, R, "no-early-exit", b.where(h), "one thread's detach error cannot skip the remaining threads (the loop is left only when the iterator is exhausted)",
                   "the detach loop can be left early at %s" % [b.where(x) for x, s in exits])
+    # guard: once threads_suspended is read true, every path to the return runs the detach loop over self.threads
+    # (an alternative branch that resumes "some other way" is not the loop this rule has checked)
+    guards = []
+    for x in range(b.n):
+        if b.blocks[x]["cleanup"] or b.term(x)["k"] != "switch":
+            continue
+        a, _ = switch_atom(b, o, x)
+        a = strip(a)
+        if a[0] == "field" and a[2] == "threads_suspended" and root(a[1]) == ("param", 1):
+            guards.append(x)
+    ctx.floor(R, "branch on self.threads_suspended", len(guards), 1)
+    rets0 = [i for i in range(b.n) if b.term(i)["k"] == "return"]
+    heads = set()
+    for bi in det:
+        inner = [h for h, body in loops.items() if bi in body]
+        if inner:
+            heads.add(min(inner, key=lambda x: len(loops[x])))
+    for x in guards:
+        for (tgt, lab) in b.succ_edges(x):
+            if lab[0] != "sw" or lab[1] == 0:
+                continue
+            w = must_pass(b, tgt, rets0, heads) if heads else [tgt]
+            ctx.check(w is None, R, "suspended=>loop", b.where(x), "whenever threads_suspended is set, every path to the return runs the per-thread detach loop",
+                      "with threads_suspended set, resume_threads can return without running the detach loop over self.threads (path %s)" % ([b.where(y) for y in (w or [])][:6]))
     # threads_suspended = false on every path to return
     stores = [bi for bi, blk in enumerate(b.blocks) for st in blk["stmts"] if st["k"] == "assign" and st["p"]["proj"] and st["p"]["proj"][-1].get("n") == "threads_suspended"]
     rets = [i for i in range(b.n) if b.term(i)["k"] == "return"]
@@ -413,6 +437,56 @@ def rule_reinject(ctx):
     ctx.floor(R, "EINTR retry edge", n_eintr, 1)
 
 
+PTRACE_REQ = ("nix::sys::ptrace::", "libc::ptrace")
+SPAWN_LAST = ("spawn", "spawn_scoped", "spawn_unchecked", "spawn_unchecked_")
+
+
+def rule_tracer_thread(ctx, R="C03/tracer-thread"):
+    """ptrace requests are accepted only from the task that attached; a request made on another thread fails with ESRCH, which
+    ptrace_detach maps to Ok.  So no ptrace request may be reachable from the entry closure of a spawned thread."""
+    prog = ctx.prog
+    users = {}
+    for b in prog.bodies:
+        for bi, t in b.calls(lambda c: (c.short or "").startswith(PTRACE_REQ)):
+            users.setdefault(b.short, []).append((b, bi))
+    ctx.floor(R, "ptrace request call sites", sum(len(v) for v in users.values()), 8)
+    cg = prog.callgraph()
+    if isinstance(cg, tuple):
+        cg = cg[0]
+
+    def reach(n):
+        seen, todo = set(), [n]
+        while todo:
+            x = todo.pop()
+            if x in seen:
+                continue
+            seen.add(x)
+            todo.extend(cg.get(x, ()))
+        return seen
+    n_spawn = 0
+    for b in prog.bodies:
+        sp = [(bi, t) for bi, t in b.calls(lambda c: (c.short or "").split("::")[-1] in SPAWN_LAST and "thread" in (c.short or ""))]
+        if not sp:
+            continue
+        o = Origin(b)
+        for bi, t in sp:
+            n_spawn += 1
+            entries = [a for arg in o.call_args(bi) for a in walk(arg) if a[0] == "closure"]
+            key = b.short.split("::{closure")[0].split("::")[-1]
+            if not entries:
+                ctx.unproven(R, (key, "thread-entry"), b.where(bi), "a thread is spawned with an entry that is not a closure literal; what runs on it is not resolved")
+                continue
+            bad = []
+            for e in entries:
+                for f in sorted(reach(e[1])):
+                    if f in users:
+                        ub, ubi = users[f][0]
+                        bad.append("%s (%s)" % (f.split("::{closure")[0].split("::")[-1], ub.where(ubi)))
+            ctx.check(not bad, R, (key, "no-ptrace-on-spawned-thread"), b.where(bi), "the spawned thread issues no ptrace request",
+                      "a ptrace request is issued from a spawned thread (%s): only the attaching thread is the tracer, the request fails with ESRCH and detach reports success" % ", ".join(sorted(set(bad))[:4]))
+    ctx.ok(R, "spawn-sites", None, "thread spawn sites examined: %d" % n_spawn, nontrivial=False)
+
+
 def rule_resume_before_return(ctx):
     R = "C03/resume-before-return"
     from rules.c01 import GEN
@@ -434,6 +508,7 @@ def run(ctx):
     rule_attach_detach(ctx)
     rule_reinject(ctx)
     rule_resume_before_return(ctx)
+    rule_tracer_thread(ctx)
     # resume_threads / Drop detach exactly the threads that are LISTED: the list may only be edited by the attach filter
     # (same rule instance as C04/thread-list-mutators)
     from rules import c04
